@@ -175,16 +175,20 @@ func checkImage(live *eng.Runner, img, id, point string, admissible []map[string
 			Detail: fmt.Sprintf("point=%s recovered projection is none of the %d admissible ones", point, len(admissible)), Diff: append([]string{"point=" + point + " "}, diff...)})
 		return
 	}
-	// fixed point
-	if err := c.Reopen(); err != nil {
-		res.Divergences = append(res.Divergences, crashDiv{ID: id, Point: point, Kind: "second_open_failed", Detail: err.Error()})
-		return
-	}
-	res.Checks++
-	obs2 := c.Observe()
-	if d := eng.Diff("obs", obs, obs2); len(d) > 0 {
-		res.Divergences = append(res.Divergences, crashDiv{ID: id, Point: point, Kind: "not_a_fixed_point", Diff: d})
-		return
+	// fixed point. For a torn tail the process that REPAIRED the log also writes first (the repair truncates
+	// through a second handle: the writer must continue at the repaired end), for the other images the
+	// directory is reopened first.
+	if point != "torn" {
+		if err := c.Reopen(); err != nil {
+			res.Divergences = append(res.Divergences, crashDiv{ID: id, Point: point, Kind: "second_open_failed", Detail: err.Error()})
+			return
+		}
+		res.Checks++
+		obs2 := c.Observe()
+		if d := eng.Diff("obs", obs, obs2); len(d) > 0 {
+			res.Divergences = append(res.Divergences, crashDiv{ID: id, Point: point, Kind: "not_a_fixed_point", Diff: d})
+			return
+		}
 	}
 	// write more, restart
 	if err := c.E.KVSet("zz_probe", []byte("p")); err != nil {
@@ -203,6 +207,17 @@ func checkImage(live *eng.Runner, img, id, point string, admissible []map[string
 	obs3 := stripProbe(c.Observe())
 	if d := eng.Diff("obs", obs, obs3); len(d) > 0 {
 		res.Divergences = append(res.Divergences, crashDiv{ID: id, Point: point, Kind: "restart_after_write_lost_more", Diff: d})
+		return
+	}
+	if point == "torn" {
+		if err := c.Reopen(); err != nil {
+			res.Divergences = append(res.Divergences, crashDiv{ID: id, Point: point, Kind: "fourth_open_failed", Detail: err.Error()})
+			return
+		}
+		res.Checks++
+		if d := eng.Diff("obs", obs, stripProbe(c.Observe())); len(d) > 0 {
+			res.Divergences = append(res.Divergences, crashDiv{ID: id, Point: point, Kind: "not_a_fixed_point", Diff: d})
+		}
 	}
 }
 
